@@ -251,6 +251,13 @@ func (x *Exec) recvValue(st *State, fr *Frame, ch Val, chV ssa.Value, pos token.
 	ok := st.X.fresh("recvok", SBool)
 	closed := x.chanClosed(st, ch.T(), chV)
 	st.Assume(Implies(Not(ok), closed))
+	// a buffered value is delivered (ok) even when the channel is closed; a closed and empty channel yields the zero
+	// value with ok == false at once; an open empty channel blocks until a value is sent (ok)
+	lnArr := st.heapGet("ChLen", ArrSort(SInt, SInt))
+	ln := Select(lnArr, ch.T())
+	st.Assume(Implies(Gt(ln, IntLit(0)), ok))
+	st.Assume(Implies(And(closed, Le(ln, IntLit(0))), Not(ok)))
+	st.heapSet("ChLen", Store(lnArr, ch.T(), Ite(Gt(ln, IntLit(0)), Sub(ln, IntLit(1)), ln)))
 	fv := st.freshVal(ct.Elem(), "recv")
 	if isPointerLike(ct.Elem()) && len(fv.C) == 1 {
 		st.assumeAllocated(fv.C[0])
